@@ -2,8 +2,8 @@ package props
 
 import (
 	"context"
-	"encoding/pem"
 	"crypto/tls"
+	"encoding/pem"
 	"fmt"
 	"net"
 	"net/rpc"
